@@ -41,7 +41,8 @@ def gen_locs(rng):
     locs = []
     # a small pool per case keeps several tracepoints on one file / one line / one function frequent (merging by location)
     files = rng.sample(CFG_FILES, rng.choice([1, 2, 3]))
-    funcs = rng.sample(FUNCS[:3] + ["never", "runf", "ru", "n"], rng.choice([2, 3]))
+    # (a configured method name is the function's own name: a QUALIFIED name such as A.f is no function's name and matches nothing)
+    funcs = rng.sample(FUNCS[:3] + ["never", "runf", "ru", "n", "A.f", "pkg.run", "g.g"], rng.choice([2, 3]))
     lines = rng.sample([1, 2, 3, 4, 99], rng.choice([2, 3]))
     for _ in range(rng.choice([0, 1, 2, 4, 6])):
         if rng.random() < 0.6:
@@ -103,7 +104,27 @@ def synthetic(ctx, n, via_response):
                 resp.append(TracePointConfig(ID="tp%d" % i, path=loc[1], line_number=loc[2] if loc[0] == "line" else 1, args=args))
                 locs_by_id[i] = loc
                 trig_lits.append(trig_lit(locs_by_id[i], [i]))
-            world.install(convert_response(resp))
+            if rng.random() < 0.5:
+                world.install(convert_response(resp))
+            else:
+                # the same response the way it ARRIVES: through the real LongPoll.poll (a double answers the request), the
+                # configuration service and the handler's listener
+                import deep.poll.poll as poll_mod
+                from deep.poll.poll import LongPoll
+                from deep.processor.trigger_handler import TracepointHandlerUpdateListener
+                from deepproto.proto.poll.v1.poll_pb2 import PollResponse, ResponseType
+                from ..lib import e5
+                tasks = e5.CtlTasks()
+                world.cfg.tracepoints.set_task_handler(tasks)
+                world.cfg.tracepoints.add_listener(TracepointHandlerUpdateListener(world.handler))
+                answer = PollResponse(ts_nanos=1, current_hash="h1", response_type=ResponseType.UPDATE, response=resp)
+                saved_stub = poll_mod.PollConfigStub
+                poll_mod.PollConfigStub = lambda channel: type("S", (), {"poll": staticmethod(lambda request, metadata=None: answer)})()
+                try:
+                    LongPoll(world.cfg, type("G", (), {"channel": None, "metadata": lambda self: []})()).poll()
+                    tasks.flush()
+                finally:
+                    poll_mod.PollConfigStub = saved_stub
         else:
             nid = 0
             trigs = []
